@@ -148,9 +148,8 @@ Proof.
   assert (Hsj : forall s j f, procs (set_job s j f) = procs s) by reflexivity.
   intros Hne. destruct e; try congruence; unfold step; cbn [fst]; try reflexivity.
   - unfold do_apply.
-    destruct ((match slot with Some b => b | None => putlocks (with_sigs s []) end) &&
-              (LaxSem.value (sem (with_sigs s [])) =? 0)); [reflexivity|].
-    destruct (negb (pstate (with_sigs s []) =? 0)); [reflexivity|]. cbn [fst].
+    destruct (negb (pstate (with_sigs s []) =? 0)); [reflexivity|].
+    destruct ((match slot with Some b => b | None => putlocks (with_sigs s []) end) && (LaxSem.value (sem (with_sigs s [])) =? 0)); [reflexivity|]. cbn [fst].
     destruct (match slot with Some b => b | None => putlocks (with_sigs s []) end); reflexivity.
   - unfold do_map. destruct (negb (pstate (with_sigs s []) =? 0)); reflexivity.
   - unfold do_imap. destruct (negb (pstate (with_sigs s []) =? 0)); reflexivity.
@@ -285,9 +284,8 @@ Proof.
   assert (Hdl : forall s p sg l, sem (deliver s p sg l) = sem s) by reflexivity.
   intros H. destruct e; unfold step; cbn [fst]; try exact H.
   - unfold do_apply.
-    destruct ((match slot with Some b => b | None => putlocks (with_sigs s []) end) &&
-              (LaxSem.value (sem (with_sigs s [])) =? 0)); [exact H|].
-    destruct (negb (pstate (with_sigs s []) =? 0)); [exact H|]. cbn [fst].
+    destruct (negb (pstate (with_sigs s []) =? 0)); [exact H|].
+    destruct ((match slot with Some b => b | None => putlocks (with_sigs s []) end) && (LaxSem.value (sem (with_sigs s [])) =? 0)); [exact H|]. cbn [fst].
     destruct (match slot with Some b => b | None => putlocks (with_sigs s []) end); [|exact H].
     cbn [sem add_job with_sem]. apply sinv_step. exact H.
   - unfold do_map. destruct (negb (pstate (with_sigs s []) =? 0)); exact H.
